@@ -280,7 +280,7 @@ def run_impl(ad, p, method, websocket=None):
 # ------------------------------------------------------------------ known-defect explanation
 
 FD_VERDICTS = {"404-but-admitted", "404-should-405", "405-but-admitted", "405-no-rule", "405-methods-extra",
-               "405-methods-missing",
+               "405-methods-missing", "404-should-be-websocket-mismatch",
                "redirect-unjustified", "redirect-wrong-target"}
 
 
@@ -534,7 +534,7 @@ FINDINGS = {
     "C03-number-range-late-validation":
         lambda rec: rec.get("kind") == "route" and rec.get("fd_explains") is True
         and rec.get("verdict") in FD_VERDICTS and len(_late_rules(rec)) > 0
-        and all("min=" in r for r in _late_rules(rec)),
+        and all("min=" in r for r in _late_rules(rec)),      # (the only late-validated converters of the universe)
     "C03-factory-drops-rule-options":
         lambda rec: rec.get("kind") == "route" and rec.get("factory_explains") is True
         and any(sp.get("wrap") and (sp.get("merge") is False or sp.get("websocket")) for sp in rec.get("rules", ())),
